@@ -98,6 +98,21 @@ pub fn run(toks: &[&str]) -> String {
             let n2 = parse_n(t.next().unwrap());
             let s2 = parse_n(t.next().unwrap());
             let c = CReg::with_state(n1, s1) * CReg::with_state(n2, s2);
+            // the assigning form must give the very same register (value, width, printed form, equality)
+            let mut d = CReg::with_state(n1, s1);
+            d *= CReg::with_state(n2, s2);
+            let (dc, dd) = (format!("{:?}", c), format!("{:?}", d));
+            if d != c || dc != dd || d.num() != c.num() || d.get() != c.get() {
+                return format!("MISMATCH a*=b gives {} {} {} but a*b gives {} {} {}", d.num(), d.get(), dd, c.num(), c.get(), dc);
+            }
+            // printed form: n binary digits of the value
+            let n = c.num();
+            if n < 64 {
+                let want = if n == 0 { "()".to_string() } else { format!("({:0width$b})", c.get(), width = n) };
+                if dc != want {
+                    return format!("MISMATCH printed form {} of a {}-bit register holding {}", dc, n, c.get());
+                }
+            }
             format!("OK {} {}", c.num(), c.get())
         }
         other => format!("ERR unknown-kind {}", other),
